@@ -59,19 +59,28 @@ def generic(sub, rule, n_quick, n_thorough, builds=("chk",), needs_ref=True, min
     return plan
 
 
-PLANS["C01"] = generic(
-    "c01",
-    rule="value-guided random expression trees (<=5 top-level steps, sub-expression depth 3, all core forms, no function calls) are "
-    "printed to text (random minimal/full parenthesisation validated by the strict reference parser, random whitespace, random "
-    "identifier/literal spellings) and searched against 5 documents each (the guiding document, 3 perturbations, 1 unrelated; "
-    "20% of guiding documents come from the compliance suite); oracle = reference evaluator on the generator's tree, compared as "
-    "JSON with numbers by value. Non-trivial = agreeing non-null result on a tree with >=3 nodes and >=2 node kinds; distinct by "
-    "(tree hash, document hash).",
-    n_quick=200_000,
-    n_thorough=12_000_000,
-    min_evaluations=50_000,
-    assumptions=["float results are compared with relative tolerance 1e-12; generated documents only contain identical or well separated numbers"],
-)
+def c01_plan(pid, tier, seed, t0):
+    enum_len = "3" if tier == "quick" else "4"
+    return generic(
+        "c01",
+        rule="(1) BOUNDED-EXHAUSTIVE: every pipeline of 1..%s steps over a 25-step alphabet (fields, indexes, all five projection kinds with and "
+        "without right-hand sides, filters, slices, multi-select list/hash, !, ||, &&, comparisons, a literal) printed to text and searched "
+        "against 12 small documents of every shape (exhaustive for that sub-space); (2) value-guided random expression trees (<=5 top-level steps, "
+        "sub-expression depth 3, all core forms, no function calls) printed to text (random minimal/full parenthesisation validated by the strict "
+        "reference parser, random whitespace incl. lone CR, random identifier/literal spellings) and searched against 5 documents each (the guiding "
+        "document, 3 perturbations, 1 unrelated; 20%% of guiding documents come from the compliance suite). Oracle = reference evaluator on the "
+        "generator's tree, compared as JSON with numbers by value. Non-trivial = agreeing non-null result on a tree with >=3 nodes and >=2 node "
+        "kinds (>=2 steps in the enumeration); distinct by (tree hash, document hash)." % enum_len,
+        n_quick=200_000,
+        n_thorough=60_000_000,
+        min_evaluations=50_000,
+        extra_args=["--enum-len", enum_len],
+        exhaustive=True,
+        assumptions=["float results are compared with relative tolerance 1e-12; generated documents only contain identical or well separated numbers"],
+    )(pid, tier, seed, t0)
+
+
+PLANS["C01"] = c01_plan
 
 
 def setup():
@@ -126,7 +135,7 @@ def c03_plan(pid, tier, seed, t0):
         "over-acceptance is attributed to a recorded deviation class only if a subset of the listed relaxations makes the reference "
         "accept it. Non-trivial = lexes to >=3 tokens; distinct by token-kind sequence." % enum_len,
         n_quick=400_000,
-        n_thorough=20_000_000,
+        n_thorough=100_000_000,
         min_evaluations=400_000,
         extra_args=["--enum-len", enum_len],
         assumptions=["the numeral -2147483648 is treated as unconstrained: 'fits a signed 32-bit integer' does not settle whether the crate must accept it (it rejects it)"],
@@ -137,7 +146,7 @@ PLANS["C03"] = c03_plan
 
 
 def c04_plan(pid, tier, seed, t0):
-    enum_len = "4" if tier == "quick" else "5"
+    enum_len = "4" if tier == "quick" else "6"
     return generic(
         "c04",
         rule="(A) ALL sequences of 1..%s operator symbols from an 18-symbol alphabet (| || && == < >= . ! [0] [*] [] [?x] .* [1:] [::-1] "
@@ -149,7 +158,7 @@ def c04_plan(pid, tier, seed, t0):
         "documents. Non-trivial = expression with operators of >=2 different binding powers (or a twin that really lost parentheses); "
         "distinct by expression text." % enum_len,
         n_quick=60_000,
-        n_thorough=12_000_000,
+        n_thorough=40_000_000,
         min_evaluations=100_000,
         extra_args=["--enum-len", enum_len],
         assumptions=["regrouping of pure composition ('.', postfix brackets, '|') is invisible in the normal form by design: composition is associative, so it does not affect what the statement constrains"],
@@ -384,13 +393,13 @@ PLANS["C02"] = generic(
     "array's elements, each once; (c) value-guided random trees containing calls nested in projections, multi-selects and other calls vs the "
     "reference evaluator. Non-trivial = non-empty principal argument / non-null nested result; distinct by (expression, document).",
     n_quick=480_000,
-    n_thorough=40_000_000,
+    n_thorough=200_000_000,
     min_evaluations=200_000,
     assumptions=["not asserted: which of several equal-key elements max_by/min_by returns; whitespace-padded or out-of-range numerals in to_number; non-finite sums; exprefs passed for 'any' parameters"],
 )
 
 def c06_plan(pid, tier, seed, t0):
-    return _c06(extra_args=["--reps", "3" if tier == "quick" else "30"])(pid, tier, seed, t0)
+    return _c06(extra_args=["--reps", "3" if tier == "quick" else "100"])(pid, tier, seed, t0)
 
 
 def _c06(extra_args):
@@ -415,7 +424,7 @@ PLANS["C06"] = c06_plan
 def c07_plan(pid, tier, seed, t0):
     builds = ["chk", "rel"]
     rundir, staged = o.prepare(builds)
-    n = 160_000 if tier == "quick" else 12_000_000
+    n = 160_000 if tier == "quick" else 60_000_000
     per = (n + o.NCPU - 1) // o.NCPU
     merged = None
     py_records = 0
@@ -488,7 +497,7 @@ PLANS["C07"] = c07_plan
 
 
 def c10_plan(pid, tier, seed, t0):
-    extra = "150" if tier == "quick" else "700"
+    extra = "150" if tier == "quick" else "1500"
     return generic(
         "c10",
         rule="a pool of JSON values (every type; strings that look like other types; ~70 number spellings incl. int/float spellings of the same "
@@ -580,7 +589,7 @@ PLANS["C08"] = records_plan(
     "within 2 ulp; strings by code point; arrays in order; objects by key set, last duplicate wins); rejection is allowed only for depth>=128, lone "
     "surrogates, numerals out of double range. In-process: print->reparse equal (bit-identical, or within the reader's 2 ulp), Variable -> "
     "serde_json::Value -> Variable (owned and borrowed) identical. Non-trivial = accepted text longer than 8 bytes; distinct by text.",
-    n_quick=200_000, n_thorough=8_000_000, min_evaluations=100_000,
+    n_quick=200_000, n_thorough=30_000_000, min_evaluations=100_000,
     assumptions=["the spelling of negative zero is not asserted ('-0' comes back as '-0.0')", "CPython's json/Decimal are a correct JSON reader"],
 )
 
@@ -593,7 +602,7 @@ PLANS["C09"] = generic(
     "JSON spellings of v with backticks escaped evaluate to v, three JSON-string spellings of k select the marker from an object that also holds "
     "near-miss keys (also as multi-select-hash key and sub-expression); (3) unquoted identifiers; (4) 24 malformed forms are rejected. Non-trivial = "
     "source containing a backslash or non-ASCII character; distinct by source text.",
-    n_quick=240_000, n_thorough=12_000_000, min_evaluations=300_000, needs_ref=False,
+    n_quick=240_000, n_thorough=60_000_000, min_evaluations=300_000, needs_ref=False,
 )
 
 
@@ -608,7 +617,7 @@ PLANS["C12"] = generic(
     "a char boundary, line/column recomputed from (expression, offset), Display compared with an independent renderer, class prefix. Hook "
     "monitor: at every JmespathError::from_ctx the shadow call stack's innermost call offset must equal ctx.offset. Non-trivial = error position "
     "preceded by a multi-byte character or a newline; distinct by (source, offset).",
-    n_quick=320_000, n_thorough=40_000_000, min_evaluations=200_000,
+    n_quick=320_000, n_thorough=200_000_000, min_evaluations=200_000,
 )
 
 
@@ -621,7 +630,7 @@ PLANS["C11"] = generic(
     "tuple/record; !, &&, || vs truth-table combination returning operands; comparisons vs comparing the two results; f(L, R) vs f(@[0], @[1]) on "
     "[L(d), R(d)]. A failing part must fail the compound (same class) unless short-circuiting makes it unreachable. Non-trivial = L(d) non-empty / "
     "non-null and R not the identity; distinct by (compound text, document).",
-    n_quick=100_000, n_thorough=6_000_000, min_evaluations=300_000, needs_ref=False,
+    n_quick=100_000, n_thorough=30_000_000, min_evaluations=300_000, needs_ref=False,
     assumptions=["truthiness of a predicate result is decided by the specification's definition in the harness"],
 )
 
@@ -683,7 +692,7 @@ PLANS["C13"] = generic(
     "value prints the same before and after every search. Evidence only: whether interpret step counts per pair stayed constant. Non-trivial = a "
     "search on a re-used/cloned handle or directly after a failing search of the same expression; distinct by (pool, expression, document, "
     "predecessor outcome).",
-    n_quick=320, n_thorough=60_000, min_evaluations=300_000, needs_ref=False, post=c13_post,
+    n_quick=320, n_thorough=300_000, min_evaluations=300_000, needs_ref=False, post=c13_post,
 )
 
 
@@ -697,7 +706,7 @@ PLANS["C14"] = generic(
     "— both Ok and equal, or both Err — on each type's own images AND on every type x a pool of 82 foreign JSON shapes (wrong arity, 0/2-key maps "
     "for enums, floats for integers, out-of-range integers, missing/extra fields). Non-trivial = a deserialisation both sides accepted with equal "
     "values; distinct by (type, JSON).",
-    n_quick=340_000, n_thorough=17_000_000, min_evaluations=300_000, needs_ref=False,
+    n_quick=340_000, n_thorough=100_000_000, min_evaluations=300_000, needs_ref=False,
     assumptions=["not asserted: maps with non-string keys, 128-bit integers, borrowed &str/&[u8] targets (outside the statement)", "serde_json is the definition"],
 )
 
@@ -711,7 +720,7 @@ PLANS["C15"] = generic(
     "iff an independent signature check accepts (else the error class, and no invocation). Logged arguments must equal the separately evaluated "
     "argument expressions in source order with expression references passed unevaluated (tree shape compared); plus a call-order probe with "
     "recording functions as arguments (incl. inside a projection). Non-trivial = modelled custom invocation or rejection; distinct by (history, call).",
-    n_quick=4_800, n_thorough=480_000, min_evaluations=300_000,
+    n_quick=4_800, n_thorough=2_400_000, min_evaluations=300_000,
 )
 
 
@@ -919,7 +928,7 @@ def c17_plan(pid, tier, seed, t0):
             for c, f in futs.items():
                 path, secs = f.result()
                 staged[c] = o.stage_binary(path, rundir, "matrix-" + c)
-    n = 25_000 if tier == "quick" else 250_000
+    n = 25_000 if tier == "quick" else 400_000
     logs = {}
     procs = {c: subprocess.Popen([staged[c], str(seed), str(n), os.path.join(rundir, c + ".log")], stdout=subprocess.PIPE, stderr=subprocess.PIPE, env=o.ENV)
              for c in configs}
